@@ -107,11 +107,6 @@ class ConstantPropagationTransformer(Transformer):
         constants_map = kwargs.get('constants_map', {})
         mapper = ConstantPropagationMapper()
 
-        rhs_symbols = FindVariables().visit(o.rhs)
-        if kwargs.get('within_loop', False) and o.lhs in rhs_symbols:
-            # In loop bodies, skip "increment" updates to the LHS value
-            return o
-
         # Resolve known constants on the RHS
         new_rhs = mapper(o.rhs, constants_map=constants_map)
         new_lhs = o.lhs
@@ -173,26 +168,33 @@ class ConstantPropagationTransformer(Transformer):
 
         return o._rebuild(condition=new_condition, body=new_body, else_body=new_else_body)
 
+    @staticmethod
+    def _invalidate_defined_symbols(body, constants_map):
+        """Forget every symbol that executing ``body`` may (re)define."""
+        for assign in FindNodes(ir.Assignment).visit(body):
+            invalidate_constants_map(assign.lhs, constants_map)
+        for loop in FindNodes(ir.Loop).visit(body):
+            invalidate_constants_map(loop.variable, constants_map)
+        for call in FindNodes(ir.CallStatement).visit(body):
+            arguments = tuple(call.arguments) + tuple(arg for _, arg in call.kwarguments)
+            for var in FindVariables().visit(arguments):
+                invalidate_constants_map(var, constants_map)
+
     def visit_Loop(self, o, **kwargs):
         constants_map = kwargs.get('constants_map', {})
         mapper = ConstantPropagationMapper()
 
         new_bounds = mapper(o.bounds, constants_map=constants_map)
 
-        # When recursing into loops, send a flag down to trigger detection
-        # of loop-variant assignments ("increment" updates to variables).
-        with dict_override(kwargs, {
-                'within_loop': True, 'constants_map': deepcopy(constants_map)
-        }):
-            kwargs['constants_map'].pop((o.variable.basename, ()), None)
+        # A value defined in the body is carried into the next iteration, so
+        # only symbols that the body leaves untouched are known on entry
+        entry_constants_map = deepcopy(constants_map)
+        invalidate_constants_map(o.variable, entry_constants_map)
+        self._invalidate_defined_symbols(o.body, entry_constants_map)
+
+        with dict_override(kwargs, {'constants_map': deepcopy(entry_constants_map)}):
             new_body = self.visit(o.body, **kwargs)
-
-        lhs_vars = {o.variable}
-        lhs_vars.update(loop.variable for loop in FindNodes(ir.Loop).visit(o.body))
-
-        assignments = FindNodes(ir.Assignment).visit(new_body)
-        for assign in assignments:
-            lhs_vars.add(assign.lhs)
+            body_constants_map = kwargs['constants_map']
 
         bounds_are_const = (
             is_constant(new_bounds.start)
@@ -200,25 +202,16 @@ class ConstantPropagationTransformer(Transformer):
             and (is_constant(new_bounds.step) or new_bounds.step is None)
         )
 
-        if bounds_are_const:
-            loop_constants_map = constants_map
-
-            for assign in assignments:
-                if not set(FindVariables().visit(assign.rhs)).intersection(lhs_vars):
-                    assign_kwargs = dict(kwargs)
-                    assign_kwargs['constants_map'] = loop_constants_map
-                    self.visit_Assignment(assign, **assign_kwargs)
+        # What is known at the end of the body holds behind the loop only if
+        # the loop provably runs at least once
+        if bounds_are_const and len(get_pyrange(new_bounds)) > 0:
+            exit_constants_map = body_constants_map
         else:
-            for assign in assignments:
-                invalidate_constants_map(assign.lhs, constants_map)
+            exit_constants_map = entry_constants_map
+        invalidate_constants_map(o.variable, exit_constants_map)
 
-        # Variables passed to calls inside the loop body may have been redefined
-        for call in FindNodes(ir.CallStatement).visit(new_body):
-            arguments = tuple(call.arguments) + tuple(arg for _, arg in call.kwarguments)
-            for var in FindVariables().visit(arguments):
-                invalidate_constants_map(var, constants_map)
-
-        invalidate_constants_map(o.variable, constants_map)
+        constants_map.clear()
+        constants_map.update(exit_constants_map)
 
         return o._rebuild(bounds=new_bounds, body=new_body)
 
@@ -228,19 +221,10 @@ class ConstantPropagationTransformer(Transformer):
 
         # The iteration count is unknown: whatever the body assigns is not a
         # known constant in the condition, in the body or after the loop
-        for assign in FindNodes(ir.Assignment).visit(o.body):
-            invalidate_constants_map(assign.lhs, constants_map)
-        for loop in FindNodes(ir.Loop).visit(o.body):
-            invalidate_constants_map(loop.variable, constants_map)
-        for call in FindNodes(ir.CallStatement).visit(o.body):
-            arguments = tuple(call.arguments) + tuple(arg for _, arg in call.kwarguments)
-            for var in FindVariables().visit(arguments):
-                invalidate_constants_map(var, constants_map)
+        self._invalidate_defined_symbols(o.body, constants_map)
 
         new_condition = mapper(o.condition, constants_map=constants_map)
-        with dict_override(kwargs, {
-                'within_loop': True, 'constants_map': deepcopy(constants_map)
-        }):
+        with dict_override(kwargs, {'constants_map': deepcopy(constants_map)}):
             new_body = self.visit(o.body, **kwargs)
 
         return o._rebuild(condition=new_condition, body=new_body)
